@@ -358,3 +358,12 @@ class CrossKey(Case):
 
 register(History())
 register(CrossKey())
+
+
+# ---- lemmas for the stubs this check relies on (see props.common.Borrowed) ----
+from props.common import Borrowed, REGISTRY
+from props import c01 as _c01
+register(Borrowed(REGISTRY['C01.reverse_byte'], 'C10', 'reverse_byte'))
+register(Borrowed(REGISTRY['C01.leaf'], 'C10', 'hash_leaves'))
+from props import c02 as _c02
+register(Borrowed(REGISTRY['C02.leaf'], 'C10', 'cipher_leaves', keep=lambda sh: sh.get('fn') in ('aes.S', 'aes.Si', 'aes.gmulc', 'des.S', 'serpent.S', 'serpent.Si')))
